@@ -1922,7 +1922,8 @@ class PGPKey(Armorable, ParentRef, PGPObject):
             # RFC 4880 says that primary keys *must* be capable of certification
             return {KeyFlags.Certify} | (user.selfsig.key_flags if user.selfsig else set())
 
-        return next(self.self_signatures).key_flags
+        # self_signatures yields the binding signatures oldest first; the most recent one decides
+        return next(reversed(list(self.self_signatures))).key_flags
 
     def _sign(self, subject, sig, **prefs):
         """
